@@ -50,6 +50,30 @@ class Session:
         self.events.append(('cmd', text))
         self.ctl.process_command(text)
 
+    def prompt(self, text):
+        """the command typed at the `wl debug $` prompt of load-from-file / run mode: through the real TerminalUI, wired as main.file_input_main does"""
+        from frontends.tui import TerminalUI
+
+        class PromptScriptOver(Exception):
+            pass
+        if getattr(self, 'tui', None) is None:
+            self.tui_queue = []
+
+            def input_func(p, q=self.tui_queue):
+                self.events.append(('prompt', p))
+                if not q:
+                    raise PromptScriptOver()
+                return q.pop(0)
+            self.tui_exc = PromptScriptOver
+            self.tui = TerminalUI(self.ctl, self.ctl, input_func)
+        self.events.append(('cmd', text))
+        self.tui_queue.append(text)
+        try:
+            self.tui.run_until_stopped()
+        except Exception as e:
+            if type(e).__name__ != 'PromptScriptOver':
+                raise
+
     def feed(self, lines, hooks=None, cleanup=True, before_read=None):
         """lines: list of str (each normally ending in '\\n').  hooks: {line_index: [command, ...]} run
         before that line is handed out (index len(lines) = before EOF is reported)."""
